@@ -1419,6 +1419,39 @@ impl Sim {
                 }
                 self.flags.insert("update_ticks_diverged_then_mutations_first");
             }
+            Step::ForwardRef { holder, target } => {
+                if !self.cfg.refs || holder >= nslots || target >= nslots || holder == target || !self.running {
+                    return;
+                }
+                // preparation (all through ordinary steps, so every generator rule applies): a replicated holder that carries
+                // a reference the clients know, and an empty target slot
+                if self.slots[holder].is_none() {
+                    self.step(&Step::Spawn { slot: holder, marked: true, comps: vec![K::A, K::S] });
+                }
+                if self.refs[holder].is_none() {
+                    if let Some(o) = (0..nslots).find(|&o| o != holder && o != target && self.slots[o].is_some() && self.marked[o]) {
+                        self.step(&Step::SetRef { slot: holder, target: o });
+                    }
+                }
+                if self.slots[target].is_some() {
+                    self.step(&Step::Despawn { slot: target });
+                }
+                self.step(&Step::ServerFrame { tick: true });
+                for c in 0..nclients {
+                    self.step(&Step::MutFirst { client: c, rev: false, ack: true });
+                }
+                let Some(h) = self.slots[holder] else { return };
+                if !self.marked[holder] || self.refs[holder].is_none() || self.slots[target].is_some() {
+                    return;
+                }
+                self.step(&Step::Spawn { slot: target, marked: true, comps: vec![K::A] });
+                self.step(&Step::SetRef { slot: holder, target });
+                if let Some(k) = [K::S, K::B, K::A, K::C].into_iter().find(|k| self.has_k(h, *k)) {
+                    self.step(&Step::Remove { slot: holder, k });
+                }
+                self.step(&Step::ServerFrame { tick: true });
+                self.flags.insert("existing_reference_pointed_at_an_entity_of_the_same_tick");
+            }
             Step::MutFirst { client, rev, ack } => {
                 if client >= nclients || !self.clients[client].connected {
                     return;
